@@ -22,13 +22,26 @@ LEVEL_TEXT = (
     "row/dimension sizes and on digit counts outside 0..7. (3) round trip — for every number type, every rectangular table with >= 1 row and column, any header: "
     "Export_Table then Import_Table with the same units and the number of header lines written gives Count_Lines = header + rows, the same shape and entry "
     "fmt6(x/dim)*dim; likewise lists and tabulated functions; over the reals, with |fmt6 y - y| <= 5e-6|y| as an explicit premise, every entry is within 5e-6 relative. "
+    "(4) readers on arbitrary files, guards, ranges (C20_import_table_sound, C20_io_guards, C20_function_range_roundtrip, C20_list_roundtrip_shape; every number type): whenever Import_Table "
+    "returns on ANY file, with any units and any number of ignored lines, every line after the ignored ones starts with exactly the same number >= 1 of numbers and the answer is these numbers in reading "
+    "order, one row per line, times the column's unit; an unopenable file, no line or no number after the ignored lines, and rows not matching the units on export terminate the process; "
+    "Export_Function over (xMin, xMax, steps, linear or logarithmic) writes `steps` rows (one when steps < 2 or xMin == xMax) and they are read back as (x, f(x)) through format and units. "
+    "(5) sessions (C20_session_table_roundtrip, C20_session_list_roundtrip, C20_session_invariant; induction over call sequences of any length): in one process, after ANY calls that do not terminate it "
+    "(exports to any path, the same path included, longer, shorter or of the other kind; imports; line counts), an export to p, then any calls not exporting to p, the import from p and Count_Lines answer "
+    "exactly as the single round trip does: the answer depends on the file system only through the last export to that path (the model's Export_* replaces the file, as ofstream::open truncates). "
+    "The session model is tied to the code by `session` cases (2..9 calls over 1..3 paths, 200-row tables followed by 1-row ones, lists where tables were, repeated requests). "
     "NOT theorems (checked per run by correspondence and implementation-side predicates): that iostreams implement such an fmt6 (the real writer/reader run on tables "
     "1..200 x 1..12, values over 600 decades, units over 60 decades, multi-line and numeric headers), that the compilers' folded static values are the denotation "
-    "(each build's constants are read after start-up and compared with the exact denotation), Round's numerical accuracy (property C17), the character-level skipping of header lines (probed with lines of up to 25000 characters), the byte-level buffering of the readers and of the line counter (the line/token model has no byte count: exported and raw files are aimed, through the header length or the width of the entries, at sizes k*B and k*B+-1 for B = 512..65536, and the sizes reached are reported in coverage.size_aimed_files), values whose quotient by the unit is not a normal finite double (excluded and counted).")
+    "(each build's constants are read after start-up and compared with the exact denotation), Round's numerical accuracy (property C17), the character-level skipping of header lines (probed with lines of up to 25000 characters), the byte-level buffering of the readers and of the line counter (the line/token model has no byte count: exported and raw files are aimed, through the header length or the width of the entries, at sizes k*B and k*B+-1 for B = 512..65536, and the sizes reached are reported in coverage.size_aimed_files), values whose quotient by the unit is not a normal finite double (excluded and counted); "
+    "the AMBIENT STATE of the calling process is not in the model at all (its functions take no such argument, and the model's answer is the same for every state): round trips and sessions are repeated "
+    "by the harness after installing a global C++ locale with another decimal point and/or digit grouping (std::locale::global with a numpunct facet; no system locale is installed on this machine, so named "
+    "locales and setlocale are not exercised), precision/floatfield flags on std::cout, an older, longer file at the path, a relative path with another working directory, and the property's clauses are "
+    "evaluated on the answers (coverage.input_distribution ambient:*); that a process which changes the global locale BETWEEN export and import reads the same values is not claimed and not tested.")
 LEVEL_NOTE = ("Coq 8.16.1 kernel; theorems over R use the standard library's real-number axioms (listed), shape theorems are axiom-free; T-tie translator tools/units2v.py "
               "(line-level parser; rejects anything it does not understand) validated each run by comparing every constant of four real builds with the exact "
               "rational evaluation of the parsed expressions; premise fmt6 accuracy inside the precision theorems; file = list of lines of tokens (character level, "
-              "unopenable output paths not modelled)")
+              "unopenable output paths not modelled); file system of the session model = association list path -> file, a path is a number (distinct numbers, distinct files; "
+              "links and relative/absolute aliases of one file are not modelled)")
 TOL = (1e-12, 0.0)
 TRUSTED = ["fmt6 (the double read back by operator>> from the text operator<< writes at the default precision 6) is instantiated in the OCaml driver as "
            "float_of_string (sprintf \"%.6g\" y); model and library then agree bit for bit on the values read back",
@@ -332,6 +345,168 @@ def generate_sized(rng, tier, cs):
         cs.append(Case(f"import_raw {p} {which} {term} {len(lines)} {spec} {flist(dims)} {len(hl)}", ("guards", "raw-regular", "size-aimed", tag(T))))
 
 
+# ------------------------------------------------------------------ sessions: several calls in one process
+# The harness starts every session with none of its paths existing (or, under "amb pre<N>", each holding an old file) and makes the
+# calls in order in ONE process: exports of lists and tables of very different sizes to the same path (larger, then smaller; a list
+# where a table was; the same request twice), to other paths in between, imports repeated, line counts.  The model runs the same calls
+# over its file system (C20_Model.v, io_run); the predicates compare every import with the LAST export to its path.
+def rand_small_table(rng, big_ok=True):
+    k = rng.random()
+    if big_ok and k < 0.12: r_, c_ = rng.choice([60, 120, 200]), rng.randint(1, 12)
+    elif k < 0.5: r_, c_ = rng.choice([1, 1, 2, 3]), rng.randint(1, 4)
+    else: r_, c_ = rng.choice([1, 2, 3, 5, 9, 20]), rng.randint(1, 12)
+    u = rng.random()
+    if u < 0.25: dims = []
+    elif u < 0.6 and c_ >= 2:
+        dims = [rand_unit(rng) for _ in range(c_)]; dims[0] = 10.0 ** rng.uniform(-30, -8); dims[-1] = 10.0 ** rng.uniform(4, 30); rng.shuffle(dims)
+    else: dims = [rand_unit(rng) for _ in range(c_)]
+    return [[value_for(rng, dims[j] if dims else 1.0) for j in range(c_)] for _ in range(r_)], dims
+
+
+def generate_sessions(rng, tier, cs):
+    n = 5000 if tier != "quick" else 220
+    for it in range(n):
+        npth = rng.choice([1, 1, 2, 3])
+        paths = [os.path.join(FILES, "sess_%d.txt" % i) for i in range(npth)]
+        held = {}; calls = []; wf = True; rewritten = False
+        amb = None
+        if rng.random() < 0.3: amb, _k = rand_ambient(rng)
+        for _ in range(rng.randint(2, 9)):
+            k = rng.random(); pi = rng.randrange(npth)
+            if k < 0.42 or not held:
+                if pi in held: rewritten = True
+                h = rand_header(rng)
+                if rng.random() < 0.4:
+                    d = rand_unit(rng); l = [value_for(rng, d) for _ in range(rng.choice([0, 1, 2, 3, 10, 50, 200]))]
+                    if pi in held and rng.random() < 0.2 and held[pi][0] == "l": h, l, d = held[pi][1:]       # the same request again
+                    calls.append(f"el {pi} {hexs(h)} {flist(l)} {hx(d)}"); held[pi] = ("l", h, l, d)
+                else:
+                    t, dims = rand_small_table(rng)
+                    if pi in held and rng.random() < 0.2 and held[pi][0] == "t": h, t, dims = held[pi][1:]
+                    calls.append(f"et {pi} {hexs(h)} {table_line(t)} {flist(dims)}"); held[pi] = ("t", h, t, dims)
+            elif k < 0.88:
+                pi = rng.choice(sorted(held)); e = held[pi]
+                if e[0] == "l": calls.append(f"il {pi} {hx(e[3])} {hlines(e[1])}")
+                else: calls.append(f"it {pi} {flist(e[3])} {hlines(e[1])}")
+            elif k < 0.95:
+                if amb is not None and "pre" in amb and pi not in held: pi = rng.choice(sorted(held))     # (the old file put there by the harness is not in the model)
+                calls.append(f"cl {pi}")
+            elif amb is None:     # (not under a changed process state: these requests read header text, whose numbers are spelt for the classic locale) requests outside the round trip: another reader, other units, another number of lines, a path never written
+                wf = False
+                if rng.random() < 0.5: calls.append(f"it {pi} {flist([] if rng.random() < 0.6 else [2.0])} {rng.choice([0, 1, 2])}")
+                else: calls.append(f"il {pi} {hx(rng.choice([1.0, 2.0]))} {rng.choice([0, 1, 2])}")
+        line = f"session {npth} " + " ".join(paths) + f" {len(calls)} " + " ".join(calls)
+        tags = ("session", "session:well-formed" if wf else "session:with-other-requests", "session:path-rewritten" if rewritten else "session:paths-written-once")
+        if amb: cs.append(Case("amb " + amb + " " + line, tags + ("ambient",) + tuple("ambient:" + x for x in ambient_kinds(amb))))
+        else: cs.append(Case(line, tags))
+
+
+def session_predicates(r, io, v):
+    """every import of a session against the last export to its path"""
+    out = []
+    np_ = r.n(); [r.w() for _ in range(np_)]
+    calls = []
+    for _ in range(r.n()):
+        k = r.w(); pi = r.n()
+        if k == "el": calls.append((k, pi, unhexs(r.w()), r.l(), r.f()))
+        elif k == "et": calls.append((k, pi, unhexs(r.w()), r.tb(), r.l()))
+        elif k == "il": calls.append((k, pi, r.f(), r.n()))
+        elif k == "it": calls.append((k, pi, r.l(), r.n()))
+        else: calls.append((k, pi))
+    held = {}; writes = {}; pos = 0; must_exit = None; unsure = False
+    exited = io.startswith("EXIT")
+    for c in calls:
+        k, pi = c[0], c[1]
+        reg = ":path-rewritten" if writes.get(pi, 0) > 1 else ":path-written-once"
+        if k == "el": held[pi] = ("l", c[2], c[3], c[4]); writes[pi] = writes.get(pi, 0) + 1
+        elif k == "et":
+            held[pi] = ("t", c[2], c[3], c[4]); writes[pi] = writes.get(pi, 0) + 1
+            if c[4] and any(len(row) != len(c[4]) for row in c[3]): must_exit = "Export_Table with rows whose length differs from the number of dimensions"; break
+        elif k == "cl":
+            if exited: continue
+            e = held.get(pi); want = 0 if e is None else hlines(e[1]) + len(e[2])
+            if e is not None and e[0] == "t" and any(len(row) == 0 for row in e[2]): pos += 1; continue
+            if v[pos] != want: out.append(("session:count-lines" + reg, f"Count_Lines = {v[pos]} after {want} lines were written to the path (call {calls.index(c)})"))
+            pos += 1
+        else:
+            e = held.get(pi)
+            if e is None: must_exit = "import from a path nothing was written to"; break
+            exact = (k == "il" and e[0] == "l" and c[2] == e[3] and c[3] == hlines(e[1])) or \
+                    (k == "it" and e[0] == "t" and c[2] == e[3] and c[3] == hlines(e[1]) and e[2] and e[2][0] and all(len(row) == len(e[2][0]) for row in e[2]))
+            if not exact: unsure = True          # a request outside the round trip clause: correspondence with the model only
+            if exited: continue
+            if k == "il":
+                got = v[pos + 1:pos + 1 + v[pos]]; pos += 1 + v[pos]
+                if exact:
+                    if len(got) != len(e[2]): out.append(("session:list-shape" + reg, f"{len(e[2])} values written last to the path, {len(got)} read back (call {calls.index(c)})"))
+                    else:
+                        for x, y in zip(e[2], got):
+                            if not close6(y, x): out.append(("session:list-six-digits" + reg, f"wrote {x!r}, read {y!r} (call {calls.index(c)})")); break
+            else:
+                got, pos = read_out_table(v, pos)
+                if exact:
+                    if [len(row) for row in got] != [len(row) for row in e[2]]:
+                        out.append(("session:table-shape" + reg, f"wrote {len(e[2])} x {len(e[2][0])} last to the path, read back {len(got)} x {len(got[0]) if got else 0} (call {calls.index(c)})"))
+                    else:
+                        for rx, ry in zip(e[2], got):
+                            if not all(close6(y, x) for x, y in zip(rx, ry)):
+                                out.append(("session:table-six-digits" + reg, f"wrote row {rx[:4]!r}, read {ry[:4]!r} (call {calls.index(c)})")); break
+    if must_exit and not exited: out.append(("session:guard", f"the session went on after {must_exit}"))
+    if exited and not must_exit and not unsure and not out: out.append(("session:exit", "a session of matching exports and imports terminated the process"))
+    return out
+
+
+# ------------------------------------------------------------------ ambient process state
+# Export_* / Import_* build their own streams; what the calling program has set up process-wide is not an argument of the request but
+# it is part of the situation: the property claims the round trip for every table, hence in every program.  "amb <spec> <round trip>"
+# makes the same request after the harness has installed: a global C++ locale with another decimal point / digit grouping (writer and
+# reader both take the global locale, so the text changes and the values read back must not), formatting state on std::cout, an older,
+# longer file at the path, a relative path.  The model's answer does not depend on any of it (the driver drops the prefix).
+DECIMAL_POINTS = [",", ",", ",", ",", ",", ".", ":", ";", "/"]
+THOUSANDS_SEPS = [".", ",", "'", "_", " ", "\xa0"]
+GROUPINGS = ["3", "3", "3", "3", "32", "1", "2", "43", "9", "13"]
+
+
+def rand_ambient(rng, grouping=True):
+    items = []; kinds = []
+    while not items:
+        if rng.random() < 0.7:
+            dp = rng.choice(DECIMAL_POINTS); items.append("dp%02x" % ord(dp)); kinds.append("decimal-point" if dp != "." else "grouping")
+            if grouping and (dp == "." or rng.random() < 0.45):
+                ts = rng.choice([c for c in THOUSANDS_SEPS if c != dp])
+                items += ["ts%02x" % ord(ts), "gr" + rng.choice(GROUPINGS)]; kinds.append("grouping")
+        if rng.random() < 0.2:
+            if rng.random() < 0.7: items.append("cp%d" % rng.choice([0, 1, 3, 10, 15, 17, 30]))
+            if rng.random() < 0.6 or not items: items.append("cf" + rng.choice("fsh"))
+            kinds.append("cout-format")
+        if rng.random() < 0.25: items.append("pre%d" % rng.choice([1, 7, 100, 4096, 5000, 70000, 300000])); kinds.append("old-file-at-path")
+        if rng.random() < 0.15: items.append("rel"); kinds.append("relative-path")
+    return "+".join(items), sorted(set(kinds))
+
+
+def ambient_kinds(spec):
+    k = set()
+    for it in spec.split("+"):
+        if it.startswith("dp") and it != "dp2e": k.add("decimal-point")
+        elif it.startswith(("gr", "ts")): k.add("grouping")
+        elif it.startswith("c"): k.add("cout-format")
+        elif it.startswith("pre"): k.add("old-file-at-path")
+        elif it == "rel": k.add("relative-path")
+    return sorted(k)
+
+
+def generate_ambient(rng, tier, cs):
+    base = [c for c in cs if c.line.startswith("rt_") and "roundtrip" in c.tags and "ambient" not in c.tags]
+    small = [c for c in base if len(c.line) < 6000]
+    n = 9000 if tier != "quick" else 300
+    out = []
+    for i in range(n):
+        c = rng.choice(small if i % 8 else base)
+        spec, kinds = rand_ambient(rng, grouping="size-aimed" not in c.tags)
+        out.append(Case("amb " + spec + " " + c.line, tuple(t for t in c.tags if t != "size-aimed" and not t.startswith("file-size")) + ("ambient",) + tuple("ambient:" + k for k in kinds)))
+    cs += out
+
+
 # ------------------------------------------------------------------ generation
 def generate(rng, tier):
     os.makedirs(FILES, exist_ok=True)
@@ -449,6 +624,10 @@ def generate(rng, tier):
         cs.append(Case(f"import_raw {os.path.join(FILES, 'raw.txt')} {which} {term} {len(lines)} {spec} {flist(dims)} {ign}".replace("  ", " "), ("guards", "raw-" + kind)))
     # ---- files whose byte size sits on / next to a multiple of a buffer or block size
     generate_sized(rng, tier, cs)
+    # ---- the same round trips in a process with another global locale / stream state / an old file at the path / a relative path
+    generate_ambient(rng, tier, cs)
+    # ---- several calls in one process over a few paths
+    generate_sessions(rng, tier, cs)
     return cs
 
 
@@ -481,7 +660,15 @@ def read_out_table(v, k):
     return t, k
 
 
+def strip_ambient(c):
+    """(inner case, ambient spec or None)"""
+    if not c.line.startswith("amb "): return c, None
+    _, spec, inner = c.line.split(" ", 2)
+    return Case(inner, c.tags, c.tol, c.info), spec
+
+
 def nontrivial(c, io):
+    c, _ = strip_ambient(c)
     t = c.line.split()
     if t[0] != "rt_table" or io.startswith(("EXIT", "CRASH")): return False
     r = Rd(c.line); r.w(); r.w(); h = unhexs(r.w()); tb = r.tb(); dims = r.l(); ign = r.n()
@@ -501,6 +688,10 @@ def predicates(c, io):
     """S4: the property's own clauses evaluated on the implementation's output."""
     out = []
     if io.startswith(("CRASH", "SANITIZER", "TIMEOUT", "HARNESSERR")): return out
+    inner, spec = strip_ambient(c)
+    if spec is not None:      # the clauses are those of the plain request; the signature names the kind of process state as its region
+        region = ":ambient(" + ",".join(ambient_kinds(spec)) + ")"
+        return [(sig + region, msg + f" [in a process with the ambient state {spec}: " + ", ".join(ambient_kinds(spec)) + "]") for sig, msg in predicates(inner, io)]
     r = Rd(c.line); op = r.w()
     v = parse_vals(io)
     if op.startswith("in_units_"):
@@ -587,6 +778,8 @@ def predicates(c, io):
             for j, (x, y) in enumerate(zip(rx, ry)):
                 if not (y == x or abs(y - x) <= slack * abs(x)):
                     out.append((op + ":six-digits", f"entry ({i},{j}): wrote {x!r} in units of {(dims[j] if dims else 1.0)!r}, read back {y!r} (rel {abs(y-x)/abs(x) if x else math.inf:.3g})")); return out
+    elif op == "session":
+        out += session_predicates(r, io, v if not io.startswith("EXIT") else [])
     elif op == "import_missing":
         if not io.startswith("EXIT"): out.append(("import:missing-accepted", "importing a file that does not exist did not terminate the process"))
     elif op == "import_raw":
